@@ -44,7 +44,7 @@ def bad_operator(inputs, value):
 
 
 def run(ctx: Ctx):
-  for r in (r1, r2, r3, r4, r8, r9, r10, r13, r15, r16, r18):
+  for r in (r1, r2, r3, r4, r8, r9, r10, r13, r15, r16, r18, r19):
     ctx.guard(r)
   from mlmverif.props import c18, c19
   ctx.include('R-C08-5', '"leaves the caller\'s input objects untouched": the'
@@ -351,6 +351,51 @@ def r18(ctx: Ctx):
                ' and \'\' are falsy, so they are taken for "no key given" — the operator silently routes to its default key'
                ' or rejects the key', node=bad)
   ctx.floor(rule, 4, n)
+
+
+def r19(ctx: Ctx):
+  rule = 'R-C08-19'
+  ctx.rule(rule, '"apply replaces the record ... exactly as a reference interpreter": the operator runs the function it was GIVEN.'
+           ' The identity function (select semantics) is substituted only when NO function was given: wherever the operator'
+           ' code installs `_identity_fn`, the guarding test compares the function with None (`fn is None`) — a truth test'
+           ' also replaces a callable that happens to be falsy (a lookup table that subclasses dict and is still empty when'
+           ' the pipeline is built, a callable with __len__): the pipeline then silently passes its inputs through')
+  repo = ctx.repo
+  mi = repo.module('chainables.tree_fns')
+  fns = list(mi.functions.values()) + [m_ for c in mi.classes.values() for m_ in c.methods.values()]
+  n = 0
+  for fi in fns:
+    pm = None
+    for x in ast.walk(fi.node):
+      installs = (isinstance(x, ast.Name) and x.id == '_identity_fn' and isinstance(x.ctx, ast.Load))
+      if not installs:
+        continue
+      pm = pm or parent_map(fi.node)
+      # only stores / setattr of the identity (not comparisons `self.fn is _identity_fn`)
+      par = pm.get(x)
+      if isinstance(par, ast.Compare):
+        continue
+      n += 1
+      q, guard = x, None
+      while q in pm:
+        par = pm[q]
+        if isinstance(par, ast.If) and any(y is q for b in par.body for y in ast.walk(b)):
+          guard = par.test
+          break
+        q = par
+      what = f'{fi.qualname}: the identity replaces a function only when none was given'
+      is_none = guard is not None and isinstance(guard, ast.Compare) and len(guard.ops) == 1 and isinstance(
+          guard.ops[0], ast.Is) and isinstance(guard.comparators[0], ast.Constant) and guard.comparators[0].value is None and (
+              'fn' in unparse(guard.left))
+      if is_none:
+        ctx.ok(rule, fi, what, x)
+      else:
+        ctx.fail(rule, fi, what,
+                 f'`_identity_fn` is installed in {fi.qualname} under `{unparse(guard)[:50] if guard is not None else "no guard"}`:'
+                 ' not a comparison of the given function with None. A falsy callable (an empty dict-subclass lookup table, an'
+                 ' object with __len__) is then silently replaced by the identity and the operator passes its inputs through',
+                 node=x)
+  ctx.floor(rule, 1, n)
 
 
 
@@ -813,6 +858,8 @@ from mlmverif.selfcheck import B, OK  # noqa: E402
 _F = 'chainables/tree_fns.py'
 _T = 'chainables/transform.py'
 VARIANTS = [
+    B('identity-substituted-for-a-falsy-callable', 'chainables/tree_fns.py',
+      "    if self.fn is None:\n      if input_argkeys:", "    if not self.fn:\n      if input_argkeys:", 'R-C08-19'),
     B('revert-select-defaults-output-key-by-truth', 'chainables/transform.py',
       "    if output_keys is None or output_keys == ():  # pylint: disable=g-explicit-bool-comparison\n      output_keys = input_keys\n",
       "    output_keys = output_keys or input_keys\n", 'R-C08-18'),
